@@ -310,6 +310,24 @@ def radial_worker(part, job):
                 except Exception as e:
                     part.fail("missing-surface-other-error:%s" % kind, "%s descriptor with bounds %s raised %s instead of ValueError" % (kind, bounds, type(e).__name__),
                               {"kind": "radial", "mol": name, "L": L})
+    # the per-atom descriptors of an isolated molecule: with a background too small to close the surfaces of SOME atoms (the hydrogens of
+    # water at 1e-8) the request is refused as a whole - no row of placeholders for the atoms that could not be described
+    if name in ("H2O", "NH3", "H2CO"):
+        from chmpy.core.molecule import Molecule
+        from chmpy.core.element import Element
+
+        for bg in (1e-8, 0.0):
+            for order in (list(range(len(zs))), list(range(len(zs)))[::-1]):
+                part.ev()
+                m = Molecule([Element.from_atomic_number(int(z)) for z in zs[order]], np.array(p0[order], dtype=float))
+                try:
+                    d = np.asarray(m.atomic_shape_descriptors(l_max=4, background=bg), dtype=float)
+                    part.fail("missing-surface-described:atomic", "atomic descriptors of %s with background %g (some atoms have no surface inside the search bounds) returned an array%s instead of raising"
+                              % (name, bg, " holding non-finite rows" if not np.all(np.isfinite(d)) else ""), {"kind": "radial", "mol": name, "L": L})
+                except ValueError:
+                    part.outcome(("error", "atomic", bg))
+                except Exception as e:
+                    part.fail("missing-surface-other-error:atomic", "atomic descriptors with background %g raised %s instead of ValueError" % (bg, type(e).__name__), {"kind": "radial", "mol": name, "L": L})
     part.nstates(1)
 
 
